@@ -80,6 +80,14 @@ def main():
     import mirdump
     t0 = time.time()
     path, dump_s = mirdump.dump()        # once, before the workers start (they then find the digest-stamped dump)
+    # translator validation (DESIGN 2.6 / 8.2): a few random sequential scripts, real code vs. encoding, seeded by VERIF_SEED
+    sc = {"compared": 0, "mismatches": [], "seconds": 0.0}
+    if os.environ.get("VERIF_M_SELFCHECK", "1") == "1":
+        try:
+            import queries as Q, selfcheck
+            sc = selfcheck.run(Q.Ctx(path, tier, WORK), 2 if tier == "quick" else 8, int(sys.argv[3]) if len(sys.argv) > 3 else 0, thorough=(tier != "quick"))
+        except Exception as e:
+            sc = {"compared": 0, "mismatches": ["selfcheck could not run: %s: %s" % (type(e).__name__, str(e)[:300])], "seconds": 0.0}
     # the driver (lib/props.py) is the authority on which queries belong to which tier: with an explicit list the names are taken as given
     names = [n for n, qt, _ in registry(tier).get(prop, []) if ((n in filt) if filt else (tier == "thorough" or qt == "quick"))]
     os.makedirs(WORK, exist_ok=True)
@@ -96,7 +104,10 @@ def main():
                 del running[n]
                 try: results.append(json.load(open(out)))
                 except Exception: results.append({"name": n, "verdict": "inconclusive", "why": "worker died: " + (p.stderr.read() or "")[-500:]})
-    print(json.dumps({"results": results, "stats": {"mir_dump_s": round(dump_s, 1), "queries": len(names), "wall_s": round(time.time() - t0, 1), "mir_file": path}}, default=str))
+    out = {"results": results, "stats": {"mir_dump_s": round(dump_s, 1), "queries": len(names), "wall_s": round(time.time() - t0, 1), "mir_file": path,
+                                           "translator_selfcheck": {"sequential_scripts_compared_native_vs_encoding": sc["compared"], "mismatches": sc["mismatches"], "seconds": sc["seconds"]}}}
+    if sc["mismatches"]: out["error"] = "translator self-check failed (the encoding disagrees with the real code): " + "; ".join(sc["mismatches"])[:1500]
+    print(json.dumps(out, default=str))
 
 
 if __name__ == "__main__":
